@@ -207,7 +207,10 @@ def run(ctx):
         kc = k.mentions_call(r'::content_hash$')
         vv = v.mentions_call(r'::verify_signature$')
         same = kc is not None and vv is not None and kc.b[0].strip().show() == vv.b[0].strip().show()
-        okc = same and re.search(r'is_ok', v.show()) is not None
+        conv = any(x.k == 'call' and x.c is not None and x.c.local and prog.has_body(x.a) and prog.bodies[x.a].file == vc.file and
+                   x.b and x.b[0].mentions_call(r'::verify_signature$') is not None for x in v.walk())
+        # the verdict stored is is_ok() of that verification, or a same-file conversion of its Result (a small verdict enum)
+        okc = same and (re.search(r'is_ok', v.show()) is not None or conv)
         detail = 'cache.insert(%s, %s)' % (k.brief(60), v.brief(80))
     ctx.ob('CACHE-FLOW', 'verify_cached:insert', okc, vc.where(),
            'the cached verdict %s the result of verifying the very record whose content_hash is the key: %s' % ('is' if okc else 'is NOT', detail))
